@@ -63,16 +63,32 @@ def model_nets(d, objs, r):
 def model_adj(d, objs, r):
   return sorted((d.orepr(objs[int(n[0])]), sorted(d.orepr(objs[int(x)]) for x in n[1:])) for n in r['adj'])
 
-def check_design(ck, d, variants, stream, sim_variants, shape_sig=None):
+def model_lines(d, variants):
+  return [d.model_line(conn_order=d.conn_order_of(var), flips=var['flips'], blk_order=None)[1] for var in variants]
+
+class Pending:
+  """designs waiting for the model: one driver process per chunk instead of one per design"""
+  def __init__(self, ck, limit=60):
+    self.ck, self.limit, self.items = ck, limit, []
+  def add(self, *args, **kw):
+    self.items.append((args, kw))
+    if len(self.items) >= self.limit: self.flush()
+  def flush(self):
+    if not self.items: return
+    lines, spans = [], []
+    for (args, kw) in self.items:
+      ls = model_lines(args[0], args[1]); spans.append((len(lines), len(lines) + len(ls))); lines += ls
+    reps = self.ck.drv('nets').batch(lines)
+    for (args, kw), (a, b) in zip(self.items, spans):
+      check_design(self.ck, *args, reps=reps[a:b], **kw)
+    self.items = []
+
+def check_design(ck, d, variants, stream, sim_variants, shape_sig=None, reps=None):
   """one design under all its variants: model lines, real elaboration, oracles, comparisons"""
   dj = g.design_to_json(d)
   desc = g.describe(d)
-  lines = []
-  objs = None
-  for var in variants:
-    objs, line = d.model_line(conn_order=d.conn_order_of(var), flips=var['flips'], blk_order=None)
-    lines.append(line)
-  reps = ck.drv('nets').batch(lines)
+  objs = d.all_objects()
+  if reps is None: reps = ck.drv('nets').batch(model_lines(d, variants))
   parsed = [parse_reply(r) for r in reps]
   # the model itself must be order independent (theorems perm_invariant / flip_invariant)
   for vi in range(1, len(reps)):
@@ -142,7 +158,7 @@ def check_design(ck, d, variants, stream, sim_variants, shape_sig=None):
 def run(ck):
   rng = ck.rng
   quick = ck.tier == 'quick'
-  ndesigns = 400 if quick else 2500
+  ndesigns = 340 if quick else 2500
   K = 6 if quick else 16
   # known finding: a net whose reader overlaps its own writer is simulated one evaluation late
   w = g.witness_self_overlap()
@@ -152,6 +168,7 @@ def run(ck):
     d = g.gen_self_overlap(rng)
     check_design(ck, d, [d.variant_orders(rng, identity=(k == 0)) for k in range(2)], 'self-overlap', {0},
                  shape_sig={'shape': 'self-overlap-net'})
+  pend = Pending(ck)
   for i in range(ndesigns):
     d = g.gen_legal(rng, d1=rng.random() < 0.2)
     variants = None
@@ -161,7 +178,8 @@ def run(ck):
     if variants is None:
       variants = [d.variant_orders(rng, identity=(k == 0)) for k in range(K)]
     sims = {0, rng.randrange(len(variants))}
-    check_design(ck, d, variants, 'legal', sims)
+    pend.add(d, variants, 'legal', sims)
+  pend.flush()
   ck.extra_cov['orders'] = f'{K} per design' + ('' if quick else '; every per-component statement order for each fifth design with at most 120 orders')
 
 def replay(ck, data):
